@@ -612,7 +612,9 @@ def weaver_grid_case(draw, ctx):
     if mode.startswith("method"):
         method = draw(st.sampled_from(BOGUS))
     case.update(grid=g, mode=mode, method=method, gc=draw(grid_container(g)),
-                via=draw(st.sampled_from(["kw", "kw", "n-and-kw"])))
+                via=draw(st.sampled_from(["kw", "kw", "n-and-kw", "n-and-kw"])))
+    # documented: "n: ... Ignored if new_x specified" - an n that differs from the length of the explicit grid
+    case["ignored_n"] = draw(st.sampled_from([v for v in (2, 3, 9, len(x), 7) if v != len(g)]))
     return case
 
 
@@ -626,7 +628,7 @@ def weaver_grid_body(ctx, case):
     before = weaver_state(w)
     kw = dict(new_x=g, method=method)
     if case["via"] == "n-and-kw":
-        kw["n"] = 7          # documented: n is ignored when new_x is given
+        kw["n"] = case.get("ignored_n", 7)          # documented: n is ignored when new_x is given
     cls = common_classes(case)
     cls.add("method:" + (method if not unknown else "<unknown>"))
     if ends_differ or unknown:
@@ -681,6 +683,9 @@ def weaver_grid_body(ctx, case):
     cls |= gc
     cls.add("accepted:equal-ends")
     cls.add("via:" + case["via"])
+    if case["via"] == "n-and-kw":
+        cls.add("new_x+ignored-n")
+        cls.add("new_x+ignored-n: n == len(x)" if kw["n"] == len(x) else f"new_x+ignored-n: n == {kw['n']}")
     ctx.record(case, cls, nontrivial=nt)
 
 
@@ -786,6 +791,9 @@ def weaver_history_case(draw, ctx):
     else:
         spec = draw(st.lists(st.tuples(fl(0.0, 1.0), st.one_of(st.just(0.0), fl(0.0, 1.0))), min_size=0, max_size=25))
         case["final"] = dict(spec=[list(v) for v in spec])
+        if draw(st.sampled_from([False, True])):
+            # an n passed together with the explicit grid must be ignored ("len" = the current number of samples)
+            case["final"]["ignored_n"] = draw(st.sampled_from([2, 3, 9, "len"]))
     case["gc"] = draw(st.sampled_from(["array", "array", "list"]))
     return case
 
@@ -931,7 +939,14 @@ def weaver_history_body(ctx, case):
         else:
             grid = grid_from_spec(cx, final["spec"])
             where = f"after {hist}: interpolate(new_x, {method!r})"
-            ret = v.interpolate(new_x=list(grid) if case["gc"] == "list" else np.array(grid), method=method)
+            extra = {}
+            if "ignored_n" in final:
+                n_ign = len(cx) if final["ignored_n"] == "len" else final["ignored_n"]
+                if n_ign == len(grid):
+                    n_ign += 1
+                extra["n"] = n_ign
+                where = f"after {hist}: interpolate(n={n_ign}, new_x, {method!r})"
+            ret = v.interpolate(new_x=list(grid) if case["gc"] == "list" else np.array(grid), method=method, **extra)
             gx, gy = get_pair(v, where)
             gx = np.asarray(gx)
             if gx.shape != (len(grid),) or not np.array_equal(gx, np.array(grid)):
@@ -949,6 +964,8 @@ def weaver_history_body(ctx, case):
     cls |= {"op:" + o for o in done}
     cls |= {"prep-interpolate:" + s_["how"][0] for s_ in case["steps"] if s_["op"] == "interpolate"}
     cls.add("final:n" if "n" in final else "final:new_x")
+    if "ignored_n" in final:
+        cls.add("new_x+ignored-n")
     cls.add(f"steps:{len(done)}")
     rx, ry = (np.asarray(a, dtype=float) for a in w.get_reference())
     diverged = rx.shape != (len(cx),) or not (np.array_equal(rx, cx) and np.array_equal(ry, cy))
